@@ -47,7 +47,7 @@ CHECKS = {
     },
     "C10": {
         "text": "Kernel-checked theorems: legality test = non-empty and every member has at least its out-degree; superstable = non-negative and no legal set = Dhar burn consumes everything; comparison operators = vertex-wise order on V-q (incomparable configurations refused / unequal); parking predicate rejects wrong lengths and out-of-range values; generated lists consist of parking functions; matrix-tree theorem in chip-firing form, for the two quantities exactly as the library computes them: #(box configurations accepted by is_superstable) = |det reduced Laplacian| on every connected multigraph (superstables <-> cokernel by existence+uniqueness of q-reduced forms; |coker|=|det| from Mathlib's Smith normal form); on K_(n+1) superstable <=> chip counts + 1 form a parking function (sorted test = counting condition); Pollak: generate_parking_functions(m) has exactly (m+1)^(m-1) entries = parking_function_count(m) for every m>=1 (via Cayley's determinant); additionally kernel evaluation for n<=5. Tie: every subset of V-q on generated configurations; superstable count vs exact determinant; K_(n+1) vs parking functions n<=4/5; all sequences over [0..n+1]^n.",
-        "note": "Nothing partial. The determinant clause is proved up to sign (natAbs); positivity of the determinant is observed by the tie. Hypotheses: well-formed connected graph.",
+        "note": "Nothing partial: the reduced Laplacian is proved positive definite (Dirichlet form + connectivity; Mathlib spectral theorem for det > 0), so count = det holds as integers. Hypotheses: well-formed connected graph.",
     },
     "C11": {
         "text": "Kernel-checked invariant by induction over arbitrary histories of set_orientation (3 states, both endpoint orders, refused calls, flag refreshes): counters = total multiplicity pointing in/out, endpoints agree, up-to-date fullness flag correct; check_fullness exact; full orientation: in+out = valence, divisor = indeg-1 of degree g-1, divisor + reverse divisor = canonical; acyclic orientation divisor unwinnable (T9). Tie: generated histories with full digests after every step.",
